@@ -1760,3 +1760,24 @@ def _mk_set_2d(key):
 
 _mk_set_2d("a")
 _mk_set_2d("b")
+
+
+@register
+class FullJoinBounded(_DF):
+    """full_join is a composite of nine calls (modify, left_join x2, anti_join, rbind, sort, unselect, pop/setitem);
+    it is NOT brought under a deductive contract.  This entry only attaches the bounded run-time contract (every left
+    and right row at least once, no pair with unequal keys, total on empty sides) so that it runs in the thorough tier
+    and whenever another join obligation is open; it contributes one structural obligation (the method still exists
+    and still delegates to left_join / anti_join / rbind)."""
+    qualname, prop, variant = "DataFrame.full_join", "C05", "bounded only"
+    lemma_only = True
+
+    def setup(self, cx):
+        return {"self": None}
+
+    def ensures(self, cx, result):
+        import ast as _a
+        from pyvc.extract import RepoModule
+        node = RepoModule.load(F, cx.it.repo).find("DataFrame.full_join")[0]
+        called = {n.func.attr for n in _a.walk(node) if isinstance(n, _a.Call) and isinstance(n.func, _a.Attribute)}
+        cx.prove("structure: delegates to left_join, anti_join, rbind, sort", {"left_join", "anti_join", "rbind", "sort"} <= called)
